@@ -171,7 +171,11 @@ def run(cls, fname, ctx, after=None):
     if vparams:
         env[vparams[0]] = STR               # the value argument
     ev = Eval(ctx, cls, defcls, env)
-    out = ev.block(fn.body, EVERYTHING)
+    try:
+        out = ev.block(fn.body, EVERYTHING)
+    except BaseException:
+        ctx.memo.pop(key, None)          # not a recursion: the evaluation failed; report the real reason next time too
+        raise
     res = {k: out.get(k, EMPTY) for k in ("T", "F", "ID", "V", "E")}
     res["F"] = res["F"] | out.get("N", EMPTY)      # falling off the end returns None (falsy)
     ctx.memo[key] = res
@@ -295,9 +299,19 @@ class Eval:
                     return reach & (v.d if isinstance(op, ast.IsNot) else ~v.d)
                 if isinstance(v, Conc):
                     return reach if ((v.v is not None) == isinstance(op, ast.IsNot)) else EMPTY
-                if isinstance(l, ast.Call) and isinstance(l.func, ast.Attribute) and l.func.attr == "fullmatch" and self.is_str(l.args[0]):
+                if isinstance(l, ast.Call) and isinstance(l.func, ast.Attribute) and l.func.attr == "fullmatch" and l.args \
+                        and self.is_str(l.args[0]):
                     r_ = self.conc(l.func.value)
                     d = rx(r_.pattern) if r_ is not None else EMPTY
+                    return reach & (d if isinstance(op, ast.IsNot) else ~d)
+                if isinstance(l, ast.Call) and ast.unparse(l.func) in ("re.fullmatch", "re.match", "re.search") and len(l.args) == 2 \
+                        and not l.keywords and self.is_str(l.args[1]):
+                    pat = self.fstring(l.args[0])
+                    d = rx(pat)
+                    if l.func.attr == "match":
+                        d = concat(d, EVERYTHING)
+                    elif l.func.attr == "search":
+                        d = concat(concat(EVERYTHING, d), EVERYTHING)
                     return reach & (d if isinstance(op, ast.IsNot) else ~d)
                 if isinstance(l, ast.Attribute) and ast.unparse(l).startswith("self.grammar."):
                     val = self.conc(l)
